@@ -61,10 +61,29 @@ def build_reactor(inp, **kw):
         raise Rejected('setup', env.log_records())
 
 
-def build(P, workdir, **kw):
+class TooManySteps(Rejected):
+    """Raised by the harness (not DASSH) before the axial mesh is built when
+    the selected step would need more than `max_steps` planes or cannot
+    advance at all (step <= 0, see C05)."""
+
+
+def build(P, workdir, max_steps=None, **kw):
     path = gen.render(P, workdir)
     inp = read_input(path)
-    r = build_reactor(inp, **kw)
+    if max_steps is None:
+        return inp, build_reactor(inp, **kw)
+    from vmon.probe import Hooks
+
+    def guard(args, kwargs):
+        r = args[0]
+        if not (r.req_dz > 0.0) or r.core_length / r.req_dz > max_steps:
+            raise TooManySteps('too_many_steps', [(
+                'HARNESS', 'req_dz=%r core_length=%r' % (r.req_dz,
+                                                         r.core_length))])
+
+    with Hooks() as hk:
+        hk.wrap(dassh.reactor.Reactor, '_setup_zpts', pre=guard)
+        r = build_reactor(inp, **kw)
     return inp, r
 
 
